@@ -422,6 +422,15 @@ class SelectionGraphBuilder:
 
         output_registers = []
 
+        # When the ir-code was loaded from text or json, the clobbers
+        # are given by register name:
+        clobbers = [
+            self.arch.info.get_register(clobber)
+            if isinstance(clobber, str)
+            else clobber
+            for clobber in node.clobbers
+        ]
+
         sgnode = self.new_node(
             "ASM",
             None,
@@ -429,15 +438,13 @@ class SelectionGraphBuilder:
                 node.template,
                 output_registers,
                 input_registers,
-                node.clobbers,
+                clobbers,
             ),
         )
         self.chain(sgnode)
         self.debug_db.map(node, sgnode)
 
-        for i, (reg, addr) in enumerate(
-            zip(node.clobbers, node.output_values)
-        ):
+        for i, (reg, addr) in enumerate(zip(clobbers, node.output_values)):
             address = self.get_address(addr)
 
             param_node = self.new_node("REG", address.ty, value=reg)
